@@ -322,13 +322,13 @@ PROPS["C18"] = dict(
     level="exploration",
     technique="runtime monitoring: reference address book diff + invariant checker (authentic, member, strictly newer, all-or-nothing) after every batch; order-independence differential",
     explanation="The real ValidatorAddrsWatch (through the verif facade) receives generated batches for committees of 1-8: valid announcements with versions in {0,1,2,3,MAX-1,MAX} and "
-    "timestamps incl. negative, forged (signed by another key, address altered after signing, version raised after signing), non-members, duplicate keys inside a batch, forged entries "
+    "timestamps incl. negative (60 % of the addresses come from a pool of three, so newer announcements often repeat the stored address), forged (signed by another key, address altered after signing, version raised after signing), non-members, duplicate keys inside a batch, forged entries "
     "placed after valid ones, stale-but-forged entries. After every batch: accept/reject equals the reference written from the statement, a rejected batch leaves the book identical, "
     "the book equals the reference book, every stored entry verifies under its key, belongs to a member, and per key (version, timestamp) never goes back. Order independence: four books "
     "fed the same tie-free valid announcements in different orders and batchings must be equal. (node-gossip) A real node (testonly::Instance: production Network runner, block fetcher, fetch queue, gossip run_stream, validator-network dialler over a real EngineManager with an empty store) is surrounded by 2-4 raw gossip peers that announce ranges of a certified chain, answer get_block honestly or with lies (wrong number, altered payload, broken certificate, nothing, no answer), reconnect after being dropped and push genuine / forged / non-member address announcements pointing at harness listeners; here: every address the node dials (TCP accept on the announced listener) and every announcement it gossips on must be genuinely signed by a committee member, and per validator the dialled address only moves to a strictly newer announcement.",
     assumptions=["BLS signature verification is trusted", "held on the generated batches only"],
     stages=[dict(name="address-book", flavour="release", **NET), dict(name="node-gossip", flavour="release", args={"mode": "node-gossip"}, crate="net")],
-    floors={"quick": {"batches_accepted": 1000, "batches_rejected": 1000, "batches_with_duplicate_key": 300, "entries_forged-signature-by-other-key": 500, "entries_non-member": 500, "order_independence_cases": 300, "stored_entries_checked": 5000, "dials_observed": 100, "address_entries_gossiped_by_the_node": 500},
+    floors={"quick": {"batches_accepted": 1000, "batches_rejected": 1000, "batches_with_duplicate_key": 300, "entries_forged-signature-by-other-key": 500, "entries_non-member": 500, "order_independence_cases": 300, "newer_announcements_repeating_the_stored_address": 300, "stored_entries_checked": 5000, "dials_observed": 100, "address_entries_gossiped_by_the_node": 500},
             "thorough": {"batches_accepted": 50000}},
 )
 
